@@ -200,6 +200,24 @@ def representable(obs: dict) -> str | None:
     return None
 
 
+def log_insane(obs: dict) -> str | None:
+    """None if every clock in the chronological log is an exact integer number of quarters
+    (what the oracles compute with), else a description of the first offending entry."""
+    for ent in obs.get("log", []):
+        if ent[0] == "exec" and not isinstance(ent[2], int):
+            return f"event {ent[1]} executed at clock {ent[2]}"
+        if ent[0] == "cmd" and not isinstance(ent[5], int):
+            return f"clock {ent[5]} after {ent[1]}"
+        if ent[0] == "sched" and not isinstance(ent[2], int):
+            return f"scheduling request {ent[1]} issued at clock {ent[2]}"
+        if ent[0] == "sched" and ent[6] is not None and not isinstance(ent[6][1], int):
+            return f"request {ent[1]} created an event at time {ent[6][1]}"
+    for sn in obs.get("snaps", []):
+        if not isinstance(sn[3], int):
+            return f"clock {sn[3]} after a command"
+    return None
+
+
 def c_expect(obs: dict) -> str:
     snaps = C.clist(f"mkSnap {'ResOk' if s[0] == 'ok' else 'ResRefused'} {RS[s[1]]} {PS[s[2]]} {C.cz(s[3])} {C.cnat(s[4])}"
                     for s in obs["snaps"])
